@@ -1327,19 +1327,36 @@ class Exec:
                         t.env[nme] = fresh(nme, B)
                     else:
                         t.env[nme] = ("opaque", nme)
+        # the iterable, when it is inside the modelled subset: the loop variable is an ARBITRARY ELEMENT of the value it has at loop entry
+        # (sound because the loop cannot modify it: it is not a variable the loop assigns)
+        space = None
+        if not (isinstance(s.iter, ast.Name) and s.iter.id in names):
+            keep = list(self.pending)
+            try:
+                space = self.iter_space(s.iter, st.clone(), s.lineno)      # its raise conditions stay pending: the iterable is evaluated once, at loop entry
+            except Unsupported:
+                space = None
+                self.pending = keep
         h = st.clone()
         wipe(h)
         is_range = isinstance(s.iter, ast.Call) and isinstance(s.iter.func, ast.Name) and s.iter.func.id == "range"
-        for x in ast.walk(s.target):
-            if isinstance(x, ast.Name):
-                if is_range:
-                    h.env[x.id] = fresh(x.id)
-                else:
-                    h.env[x.id] = ("opaque", x.id)
+        if space is not None and not isinstance(space[0], str):
+            count, bind = space
+            i_ = fresh("_i")
+            h.assume(z3.And(i_ >= 0, i_ < count))
+            bind(h, i_, s.target)
+        else:
+            for x in ast.walk(s.target):
+                if isinstance(x, ast.Name):
+                    if is_range:
+                        h.env[x.id] = fresh(x.id)
+                    else:
+                        h.env[x.id] = ("opaque", x.id)
         outs = []
         for o in self.exec_block(s.body, h):
             if o.kind not in ("normal", "continue", "break"):
                 outs.append(o)
+        outs += self.drain()
         a = st.clone()
         wipe(a)
         self.havoc_loops_run = getattr(self, "havoc_loops_run", 0) + 1
